@@ -397,7 +397,7 @@ Proof.
   destruct H2 as [HI [HM [HD HF]]].
   destruct (HM k r K2) as [M1 [M2 [M3 [M4 M5]]]]. rewrite X2 in M2, M3.
   set (n := length (insts s2)).
-  set (X := {| irec := r; ikey := rkey x; ilin := rlin x; iwait := w; ipcv := IGate0; icanc := false; iexit := false;
+  set (X := {| irec := r; ikey := rkey x; ilin := rlin x; iwait := w; ipcv := IGate0; icanc := root_canc s c; iexit := false;
                idata := rdata x; iroot := c |}).
   cbn zeta. fold s1. fold s2. fold n. fold X.
   set (s3 := set_insts s2 (insts s2 ++ [X])).
@@ -605,9 +605,12 @@ Lemma fold_inv_acc {A E} (P : A -> Prop) (f : A -> E -> A) :
   (forall a e, P a -> P (f a e)) -> forall es a, P a -> P (fold_left f es a).
 Proof. intros H es; induction es as [|e es IH]; intros a Ha; cbn; auto. Qed.
 
+Lemma Inv_norm_ctx s : Inv s -> Inv (norm_ctx s).
+Proof. intros H. unfold norm_ctx. destruct (root_canc s (kctx s)); [now apply Inv_set_kctx | exact H]. Qed.
+
 Lemma sync_keys_inv fx s keys restart : Inv s -> Inv (fst (sync_keys fx s keys restart)).
 Proof.
-  intros H. unfold sync_keys.
+  intros H. unfold sync_keys. apply Inv_norm_ctx in H. revert H. generalize (norm_ctx s). clear s. intros s H. unfold sync_core.
   pose proof (fold_inv_acc (fun acc => Inv (fst (fst acc))) (sync_one fx restart) (sync_one_inv fx restart) keys (s, [], []) H) as G1.
   destruct (fold_left (sync_one fx restart) keys (s, [], [])) as [[s1 seen] added]. cbn [fst] in G1.
   pose proof (fold_inv_acc (fun acc => Inv (fst acc)) (sync_rm keys) (sync_rm_inv keys) (map fst (kmap s1)) (s1, []) G1) as G2.
@@ -638,7 +641,8 @@ Proof. reflexivity. Qed.
 
 Lemma reset_routine_inv s k cond : Inv s -> Inv (fst (reset_routine repaired s k cond)).
 Proof.
-  intros H. unfold reset_routine. destruct (lookup (kmap s) k) as [r|] eqn:Ek; [|exact H].
+  intros H. unfold reset_routine. apply Inv_norm_ctx in H. revert H. generalize (norm_ctx s). clear s. intros s H. unfold reset_core.
+  destruct (lookup (kmap s) k) as [r|] eqn:Ek; [|exact H].
   destruct (negb (cond_match cond k)); [exact H|].
   set (x := getr s r). set (s1 := cancel_inst s (rcancel x)).
   assert (H1 : Inv s1) by (apply Inv_cancel_inst, H).
@@ -659,7 +663,8 @@ Qed.
 
 Lemma restart_routine_inv s k cond : Inv s -> Inv (fst (restart_routine s k cond)).
 Proof.
-  intros H. unfold restart_routine. destruct (lookup (kmap s) k) as [r|] eqn:Ek; [|exact H].
+  intros H. unfold restart_routine. apply Inv_norm_ctx in H. revert H. generalize (norm_ctx s). clear s. intros s H. unfold restart_core.
+  destruct (lookup (kmap s) k) as [r|] eqn:Ek; [|exact H].
   destruct (negb (has_ctx s)); [exact H|]. destruct (negb (cond_match cond k)); [exact H|].
   set (x := getr s r). set (s1 := cancel_inst s (rcancel x)).
   destruct (cancel_inst_frame s (rcancel x)) as [C1 [C2 _]]. fold s1 in C1, C2.
@@ -863,6 +868,69 @@ Proof.
     eapply Inv_start_cur; [exact H1 | apply in_map_lookup; exact Em].
 Qed.
 
+(* ---- the environment: a root context is cancelled.  The invariant does not read the cancellation flags. ---- *)
+Section MapShape.
+  Variable f : inst -> inst.
+  Hypothesis Hl : forall x, ilin (f x) = ilin x.
+  Hypothesis Hw : forall x, iwait (f x) = iwait x.
+  Hypothesis Hp : forall x, ipcv (f x) = ipcv x.
+  Hypothesis He : forall x, iexit (f x) = iexit x.
+
+  Lemma nth_error_map_inv (l : list inst) j y : nth_error (map f l) j = Some y -> exists x, nth_error l j = Some x /\ y = f x.
+  Proof. rewrite nth_error_map. destruct (nth_error l j) as [x|]; cbn; [|discriminate]. intros E. inversion E. eauto. Qed.
+  Lemma over_map x : over (f x) = over x. Proof. unfold over. now rewrite Hp. Qed.
+  Lemma in_user_map x : in_user (f x) = in_user x. Proof. unfold in_user. now rewrite Hp. Qed.
+
+  Lemma earlier_over_map l i L : earlier_over l i L -> earlier_over (map f l) i L.
+  Proof.
+    intros H j y Hj Hy Hly. destruct (nth_error_map_inv l j y Hy) as [x [Hx ->]]. rewrite over_map. rewrite Hl in Hly. eapply H; eauto.
+  Qed.
+  Lemma all_over_map l L : all_over l L -> all_over (map f l) L.
+  Proof. intros H j y Hy Hly. destruct (nth_error_map_inv l j y Hy) as [x [Hx ->]]. rewrite over_map. rewrite Hl in Hly. eapply H; eauto. Qed.
+  Lemma last_of_map l L j : last_of l L j -> last_of (map f l) L j.
+  Proof.
+    intros [[y [Hy Hly]] Hlast]. split.
+    - exists (f y). split; [rewrite nth_error_map, Hy; reflexivity | now rewrite Hl].
+    - intros m z Hm Hz. destruct (nth_error_map_inv l m z Hz) as [x [Hx ->]]. rewrite Hl. eapply Hlast; eauto.
+  Qed.
+  Lemma chain_ok_map l L w : chain_ok l L w -> chain_ok (map f l) L w.
+  Proof. unfold chain_ok. destruct w; [apply last_of_map | apply all_over_map]. Qed.
+  Lemma wait_ok_map l i x : wait_ok l i x -> wait_ok (map f l) i (f x).
+  Proof.
+    unfold wait_ok. rewrite Hw, Hl. destruct (iwait x) as [j|]; [|apply earlier_over_map].
+    intros [Hj [[y [Hy Hly]] Hb]]. split; [exact Hj|]. split.
+    - exists (f y). split; [rewrite nth_error_map, Hy; reflexivity | now rewrite Hl].
+    - intros m z Hm1 Hm2 Hz. destruct (nth_error_map_inv l m z Hz) as [x0 [Hx0 ->]]. rewrite Hl. eapply Hb; eauto.
+  Qed.
+  Lemma InvI_map l : InvI l -> InvI (map f l).
+  Proof.
+    intros H i y Hy. destruct (nth_error_map_inv l i y Hy) as [x [Hx ->]]. destruct (H i x Hx) as [H1 [H2 H3]].
+    split; [now rewrite He, over_map|]. split; [now apply wait_ok_map|].
+    rewrite over_map, in_user_map, Hl. intros Ho. apply earlier_over_map. auto.
+  Qed.
+  Lemma Inv_map s : Inv s -> Inv (set_insts s (map f (insts s))).
+  Proof.
+    intros [HI [HM [HD HF]]]. split; [|split; [|split]].
+    - cbn [insts set_insts]. now apply InvI_map.
+    - intros k r Hk. destruct (HM k r Hk) as [M1 [M2 [M3 [M4 M5]]]]. unfold RecOK in *.
+      change (getr (set_insts s (map f (insts s))) r) with (getr s r). cbn [recs nlin insts set_insts].
+      repeat split; auto. now apply chain_ok_map.
+    - exact HD.
+    - intros i y Hy. cbn [insts set_insts] in Hy. destruct (nth_error_map_inv _ i y Hy) as [x [Hx ->]]. rewrite Hl.
+      cbn [nlin set_insts]. eapply HF; eauto.
+  Qed.
+End MapShape.
+
+Lemma Inv_map_canc s c : Inv s -> Inv (set_insts s (map (fun x => if Nat.eqb (iroot x) c then with_canc x else x) (insts s))).
+Proof. apply Inv_map; intros x; destruct (Nat.eqb (iroot x) c); reflexivity. Qed.
+
+Lemma cancel_root_inv s c : Inv s -> Inv (cancel_root s c).
+Proof.
+  intros H. unfold cancel_root. destruct (Nat.eqb c 0); [exact H|].
+  apply (Inv_ext (set_insts s (map (fun x => if Nat.eqb (iroot x) c then with_canc x else x) (insts s)))); try reflexivity.
+  apply Inv_map_canc. exact H.
+Qed.
+
 Theorem step_inv s e : Inv s -> Inv (step repaired s e).
 Proof.
   intros H. destruct e; cbn [step].
@@ -885,6 +953,7 @@ Proof.
   - now apply bookkeep_inv.
   - unfold advance. now apply Inv_set_timers, Inv_set_clock.
   - now apply timer_cb_inv.
+  - now apply cancel_root_inv.
 Qed.
 
 Lemma init_inv dl sc : Inv (init dl sc).
